@@ -29,6 +29,7 @@ partial def loop (h : IO.FS.Stream) (s : St) : IO Unit := do
       IO.println "ok"
       loop h { w := newIface s.w i.toNat! [0] attrs (pairs tg) invs,
                names := dedupS (s.names ++ attrs.map (·.1)) }
+  | ["watch", _] => IO.println "ok"; loop h s      -- a dependent that queries from inside notifications: no effect on the model
   | ["set", i, bs] =>
       let bases := (lst bs).map String.toNat!
       IO.println "ok"; loop h { s with w := setBases s.w i.toNat! (if bases.isEmpty then [0] else bases) }
